@@ -160,8 +160,12 @@ BinInv ==
       /\ Bin(iv, b, o) = b                         \* a bin start is its own bin
       /\ b <= Bin(iv, d + 1, o)                    \* monotone in the source
       /\ Bin(iv, d, b) = b                         \* re-anchoring at a boundary does not move the bins
-      /\ DateBinWalk(iv, d, o) = DateBin(iv, d, o)  \* the walk of the code and the closed form agree
-      \* the named deviation states the pre-repair behaviour exactly on its inputs
+
+\* the mechanisms: the walk the code performs equals the closed form; the pre-repair walk is exactly the named deviation
+WalkInv ==
+  \A iv \in Strides : \A o \in Origins :
+    BinDomain(iv, o) =>
+      /\ DateBinWalk(iv, d, o) = DateBin(iv, d, o)
       /\ DateBinShipped(iv, d, o) =
            IF OnBoundaryAfterOrigin(iv, d, o) THEN PrevBin(iv, d, o) ELSE DateBin(iv, d, o)
 =============================================================================
